@@ -112,7 +112,10 @@ def do_op(pgpy, op, actor, priv, pub, other, enforce, user=None, address=None):
                 ok = ok and str(fpr) == str(comp.fingerprint)
             return named, ok, ''
         if op == 'certify':
-            s = actor.certify(other.userids[0], created=K.ts(K.T0 + 500))
+            # (a key without an identity has no preferences to take the hash algorithm from: name one, so that a refusal is the policy's and
+            # not a missing default)
+            kw_ = {'hash': pgpy.constants.HashAlgorithm.SHA256} if not list(actor.userids) else {}
+            s = actor.certify(other.userids[0], created=K.ts(K.T0 + 500), **kw_)
             return comp_index(priv, s.signer), bool(pub.verify(other.userids[0], s)), ''
         if op == 'revoke':
             s = actor.revoke(actor.userids[0], created=K.ts(K.T0 + 500))
